@@ -5,12 +5,25 @@ import itertools, re
 # ------------------------------------------------------------------------------------------ lib12
 def lib12_all():
     dom = [-3, -2, -1, 0, 1, 2]
-    return [f"chk {c} {a} {b}" for c in range(5) for a in dom for b in dom]
+    base = [f"chk {c} {a} {b}" for c in range(5) for a in dom for b in dom]
+    # other output types (zero-sized Ok payload; zero-sized error with bool / String payloads): verdicts only
+    return base + [f"{f} {c} {a} {b}" for f in ("chk2", "chk3", "chk4") for c in range(5) for a in dom for b in dom]
 
 
 def oracle12(case, lines):
     fails = []
     for l in lines:
+        m2 = re.match(r"chk([234]) (\d) (-?\d+) (-?\d+) -> (\w+) obj=(\w+) objtyped=(\w+)", l)
+        if m2:
+            f, c, a, b = int(m2.group(1)), int(m2.group(2)), int(m2.group(3)), int(m2.group(4))
+            norm = {2: lambda n: 0 if n >= 0 else n, 3: lambda n: n % 2 if n >= 0 else -1, 4: lambda n: n if n >= 0 else -1}[f]
+            a, b = norm(a), norm(b)
+            ok1, ok2 = a >= 0, b >= 0
+            rel = [a == b, (ok1 and ok2 and a == b) or (not ok1 and not ok2), (not ok1 and not ok2 and a == b) or (ok1 and ok2), ok1 == ok2, True][c]
+            want = "consistent" if rel else "inconsistent"
+            if m2.group(5) != want: fails.append(f"checker {c} on output type family {f}: output {b} against stamp of {a}: {m2.group(5)}, documented relation says {want}")
+            if m2.group(6) != m2.group(5) or m2.group(7) != m2.group(5): fails.append(f"checker {c} family {f}: OutputCheckerObj proxy disagrees: {l}")
+            continue
         m = re.match(r"chk (\d) (-?\d+) (-?\d+) -> stamp=(\S+) (\w+) obj=(\w+) objstamp=(\S+) objtyped=(\w+)", l)
         if not m:
             if l.startswith(("bad-op", "harness", "process")): fails.append(l)
